@@ -169,6 +169,29 @@ TABLE.update({
  "C17-N": ("cmd/ow-single", "go test -vet=off -count=1 -run TestC17NStdinKinds ./cmd/ow-single/"),
 })
 
+TABLE.update({
+ "C01-O": ("data", "go test -vet=off -count=1 -run TestC01O ./data/"),
+ "C01-P": ("data", "go test -vet=off -count=1 -run TestC01P ./data/"),
+ "C02-O": ("data", "go test -vet=off -count=1 -run TestC02O ./data/"),
+ "C02-P": ("data", "go test -vet=off -count=1 -run TestC02P ./data/"),
+ "C03-O": ("libopenwater", "go test -vet=off -count=1 -run TestC03O ./libopenwater/"),
+ "C03-P": ("data/cdata", "go test -vet=off -count=1 -run TestC03P ./data/cdata/"),
+ "C04-O": ("c04odemo", "go test -vet=off -count=1 ./c04odemo/"),
+ "C04-P": ("c04pdemo", "go test -vet=off -count=1 ./c04pdemo/"),
+ "C05-O": ("models/conversion", "go test -race -vet=off -count=1 -run TestDemoTablesRace ./models/conversion/"),
+ "C05-P": ("cmd/ow-sim", "go1.26.8 test -race -modfile=%(stub)s -vet=off -count=1 -run TestDemo ./cmd/ow-sim/"),
+ "C06-O": ("models/routing", "go test -vet=off -count=1 -run TestHotStartConstituentDecayDrySpell ./models/routing/"),
+ "C06-P": ("models/storage", "go test -vet=off -count=1 -run TestHotStartStorageEmptyReservoir ./models/storage/"),
+ "C07-O": ("cmd/ow-sim", "go1.26.8 test -modfile=%(stub)s -vet=off -count=1 -run TestC07ODemo ./cmd/ow-sim/"),
+ "C07-P": ("cmd/ow-sim", "go1.26.8 test -modfile=%(stub)s -vet=off -count=1 -run TestC07PDemo ./cmd/ow-sim/"),
+ "C08-O": ("io", "go1.26.8 test -modfile=%(stub)s -vet=off -count=1 -run TestC08ODemo ./io/"),
+ "C08-P": ("io", "go1.26.8 test -modfile=%(stub)s -vet=off -count=1 -run TestC08PDemo ./io/"),
+ "C14-O": ("models/generation", "go test -vet=off -count=1 -run TestC14ODemo ./models/generation/"),
+ "C14-P": ("models/rr", "go test -vet=off -count=1 -run TestC14PDemo ./models/rr/"),
+ "C17-O": ("sim", "go test -vet=off -count=1 -run TestDemoC17O ./sim/"),
+ "C17-P": ("sim", "go test -vet=off -count=1 -run TestDemoC17P ./sim/"),
+})
+
 def sh(cmd, cwd=WT):
     r = subprocess.run(cmd, shell=True, cwd=cwd, env=ENV, capture_output=True, text=True)
     return r.returncode, (r.stdout + r.stderr)[-1500:]
